@@ -359,6 +359,16 @@ def quote_state_rule(ctx, crate):
                     if (x == cexpr and y[0] == "var" and y[1] in remembered) or (y == cexpr and x[0] == "var" and x[1] in remembered):
                         good = True
             ok_close = ok_close and good
+        # opened (and the remembered character replaced) only while no quote is open
+        ok_open = bool(opened)
+        for bi in opened:
+            ok_open = ok_open and any(strip_sites(a) == ("var", l, b.names.get(l)) and v is False or
+                                      (strip_sites(a)[0] == "var" and strip_sites(a)[1] == l and v is False)
+                                      for a, v in dom_facts(b, bi, within=loop))
+        ctx.ob("R20-6", b.path, "quote state `%s`: a quote character opens a quoted region only when none is open" % name, ok_open,
+               key="R20-6|%s|quote-open-guard|%s" % (b.path, name), crate=crate.kind, where=b.loc((opened or [0])[0]),
+               detail=None if ok_open else "inside an open quote the other quote character replaces the remembered one: a "
+               "second such character then closes the region and the next space splits the word being completed")
         ok = bool(opened) and bool(remembered) and ok_close and not other
         ctx.ob("R20-6", b.path, "quote state `%s`: opened together with remembering the character, closed only by that "
                                 "character" % name, ok, key="R20-6|%s|quote-state|%s" % (b.path, name), crate=crate.kind,
